@@ -68,31 +68,29 @@ def exclusions() -> List[CL.SiteExclusion]:
 
 
 def l2_premise(ctx: Ctx):
-    """_borrow borrows, for every symbol to hold, exactly what the AVAILABLE balance is short of the amount to hold."""
+    """_borrow borrows, for every symbol to hold, exactly what the AVAILABLE balance is short of the amount to hold.
+
+    Decided on the canonical form of the map the loan loop iterates (sa.norm.derived_map), so comprehension chains, a single loop
+    with a temporary, or an aliased ``account_balances`` are the same thing."""
+    from .. import norm as N
     bo = ctx.func(f"{OM}._borrow")
     req = bo.params[1]
-    defs = {s.target.id: s.node.value for s in A.stores(bo) if isinstance(s.target, ast.Name) and isinstance(s.node, ast.Assign)}
-    ph = next((k for k, v in defs.items() if isinstance(v, ast.DictComp) and "get_available_balance" in ast.unparse(v)), None)
-    ok1 = False
-    if ph is not None:
-        v = defs[ph]
-        gen = v.generators[0]
-        ok1 = ast.unparse(gen.iter) == f"{req}.items()" and isinstance(gen.target, ast.Tuple) and not gen.ifs and \
-            ast.unparse(v.value) == f"self._ctx.account_balances.get_available_balance({gen.target.elts[0].id}) - {gen.target.elts[1].id}" \
-            and ast.unparse(v.key) == gen.target.elts[0].id
-    bs = next((k for k, v in defs.items() if isinstance(v, ast.DictComp) and ph is not None and ast.unparse(v.generators[0].iter) == f"{ph}.items()"), None)
-    ok2 = False
-    if bs is not None:
-        v = defs[bs]
-        gen = v.generators[0]
-        a_ = gen.target.elts[1].id
-        ok2 = ast.unparse(v.value) == f"-{a_}" and [ast.unparse(i) for i in gen.ifs] == [f"{a_} < Decimal(0)"]
-    loops = [n for n in ast.walk(bo.node) if isinstance(n, ast.For) and bs is not None and ast.unparse(n.iter) == f"{bs}.items()"]
-    ok3 = False
+    loops = [n for n in ast.walk(bo.node) if isinstance(n, ast.For) and isinstance(n.iter, ast.Call) and isinstance(n.iter.func, ast.Attribute)
+             and n.iter.func.attr == "items" and isinstance(n.iter.func.value, ast.Name) and isinstance(n.target, ast.Tuple)
+             and any(isinstance(c, ast.Call) and (A.call_name(c) or "").endswith("loan_mgr.create_loan") for c in ast.walk(n))]
+    ok1 = ok2 = ok3 = False
     if loops:
-        sym, amt = [e.id for e in loops[0].target.elts]
-        ok3 = any(isinstance(c, ast.Call) and (A.call_name(c) or "").endswith("loan_mgr.create_loan") and [A.dotted(x) for x in c.args] == [sym, amt]
-                  for c in ast.walk(loops[0]))
+        lp = loops[0]
+        sym, amt = [e.id for e in lp.target.elts]
+        ok3 = any(isinstance(c, ast.Call) and (A.call_name(c) or "").endswith("loan_mgr.create_loan") and [A.dotted(x) for x in c.args[:2]] == [sym, amt]
+                  for c in ast.walk(lp))
+        dm = N.derived_map(bo, lp.iter.func.value.id)
+        if dm is not None:
+            base, key, value, filters = dm
+            avail = "self._ctx.account_balances.get_available_balance(KEY_)"
+            ok1 = base == req and key == "KEY_"
+            ok2 = value.replace(" ", "") in (f"-({avail}-VAL_)", f"VAL_-{avail}") and \
+                [f.replace(" ", "") for f in filters] in ([f"{avail}-VAL_<Decimal(0)"], [f"VAL_>{avail}"], [f"{avail}<VAL_"])
     return bo, (ok1, ok2, ok3)
 
 
